@@ -98,11 +98,26 @@ def gen_unit(rng, nids, depth, maxlen):
         L.append('#define %s %d' % (m, macros[m]))
         L.append('extern int zq9rd_%d, zq9r%d;' % (rng.randrange(10 ** 6), rng.randrange(100)))
     nchk = [0]
+    # a macro name as the last token before and the first token after its own #undef / redefinition (nothing else is looked up in between)
+    adj = []
+    for j in range(6):
+        mk, v1, v2 = 'ZQ9ADJ%d' % j, 1000 + j, 2000 + 7 * j
+        L.append('enum { %s = %d };' % (mk, v2 if j % 2 else 0))
+        L.append('#define %s %d' % (mk, v1))
+        if j % 2:      # undefined: the name falls back to the enumeration constant declared before the macro
+            adj.append(('static int chkadj%d = %s +\n#undef %s\n%s;' % (j, mk, mk, mk), v1 + v2))
+        elif j % 4 == 0:
+            adj.append(('static int chkadj%d = %s +\n#undef %s\n#define %s %d\n%s;' % (j, mk, mk, mk, v2, mk), v1 + v2))
+        else:          # redefined twice in a row, used in between
+            adj.append(('static int chkadj%d = %s -\n#undef %s\n#define %s %d\n%s +\n#undef %s\n#define %s %d\n%s;' % (j, mk, mk, mk, v2, mk, mk, mk, v1 + 5, mk), v1 - v2 + v1 + 5))
 
     def chk(expr, v, indent=''):
         L.append('%sstatic int chk%d = %s;' % (indent, nchk[0], expr))
         exp.append(('chk%d' % nchk[0], v))
         nchk[0] += 1
+    for text, v in adj:
+        L.append(text)
+        exp.append((re.search(r'chkadj\d+', text).group(0), v))
     for n in rng.sample(ids, min(len(ids), 300)):
         chk(n, val[n])
     for n in tagsz:
@@ -202,6 +217,24 @@ def gen_unit(rng, nids, depth, maxlen):
             else:
                 chk(n, v, ind)
     L.append('}')
+    # sibling blocks: the last identifier looked up in a block is the first one looked up in the next block of the same depth, where it denotes something else
+    L.append('void siblings(void) {')
+    for j, n in enumerate(rng.sample(ids, min(len(ids), 12))):
+        v = val[n]
+        kind = j % 4
+        if kind == 0:
+            L.append('\t{ enum { %s = %d }; (void)sizeof(char[%s == %d ? 1 : -1]); }' % (n, v + 17, n, v + 17))
+        elif kind == 1:
+            L.append('\t{ long %s = 0; (void)sizeof(%s); }' % (n, n))
+        elif kind == 2:
+            L.append('\t{ typedef char %s[7]; (void)sizeof(%s); }' % (n, n))
+        else:
+            L.append('\t{ { { int %s = 1; (void)%s; } } }' % (n, n))
+        L.append('\t{ (void)sizeof(char[%s == %d ? 1 : -1]); { (void)sizeof(char[%s == %d ? 1 : -1]); } }' % (n, v, n, v))
+        L.append('\tif (0) { struct %s_t { char c[%d]; } %s; (void)sizeof(%s); } else { (void)sizeof(char[%s == %d ? 1 : -1]); }' % (n[:8], j + 2, n, n, n, v))
+        L.append('\tfor (int %s = 0; %s < 1; ++%s) { (void)%s; }' % (n, n, n, n))
+        L.append('\t{ (void)sizeof(char[%s == %d ? 1 : -1]); }' % (n, v))
+    L.append('}')
     # a function returning a pointer to function: the body sees the parameters of the function itself, not those of the returned type
     for j in range(3):
         n = rng.choice(ids)
@@ -283,7 +316,7 @@ def _unit(args):
     order = []
     for d in m.data:
         data[d.name] = d
-        mm = re.fullmatch(r'(?:\.L)?(chk\d+)(?:\.\d+)?', d.name)
+        mm = re.fullmatch(r'(?:\.L)?(chk[a-z]*\d+)(?:\.\d+)?', d.name)
         if mm:
             order.append((mm.group(1), d))
     got = {}
